@@ -188,7 +188,7 @@ def main(tier, replay):
         case = json.load(open(replay))['case']; print(json.dumps(case, indent=1)[:6000]); sys.exit(0)
     outdir = common.scratch('c09')
     rng = chk.rng
-    nt = 30 if tier == 'quick' else 600
+    nt = 60 if tier == 'quick' else 600
     tjobs = [(('plain', 'tsan', 'asan')[i % 3], chk.seed * 100000 + i, ('lua', 'promela')[i % 2], ('large', 'fast')[(i // 2) % 2], outdir) for i in range(nt)]
     sigs = set(); deliveries = 0
     for rec in common.pmap(run_timing, tjobs, workers=min(12, common.NPROC)):
@@ -196,7 +196,7 @@ def main(tier, replay):
         if not rec['bad']: chk.nontrivial('timing:%s' % rec['job'])
         for key, det in rec['bad']: chk.report(key, {'job': rec['job'], 'xml': rec['xml'], 'detail': det}, 'timing %s: %s' % (rec['job'], key))
         if not rec['bad'] and len(chk.samples) < 2: chk.sample({'workload': 'timing chart', 'job': rec['job'], 'deliveries_checked': rec['deliveries']})
-    reps = 3 if tier == 'quick' else 50
+    reps = 5 if tier == 'quick' else 50
     sjobs = []
     for name in SCRIPTS:
         for k in range(reps):
